@@ -352,9 +352,51 @@ package keeper
 //@ ensures [same-consumer] forall c string, a types.ConsumerConsAddress :: c != consumerId ==> S[types.ValidatorsByConsumerAddrKey(c, a)] == old(S[types.ValidatorsByConsumerAddrKey(c, a)])
 //@ ensures [no-deps] E == old(E) && X == old(X)
 
+// ---------------------------------------------------------------- time queues (C10, C11, C13, C20)
+// The generic helpers are verified once for an arbitrary pure key function.
+
+//@ func Keeper.appendConsumerIdOnTime
+//@ let l0 := old(k.getConsumerIdsBasedOnTime(ctx, key, time))
+//@ ensures [tail] result == nil ==> len(k.getConsumerIdsBasedOnTime(ctx, key, time).0.Ids) == len(l0.0.Ids) + 1 && k.getConsumerIdsBasedOnTime(ctx, key, time).0.Ids[len(l0.0.Ids)] == consumerId
+//@ ensures [keep] result == nil ==> forall i int :: 0 <= i && i < len(l0.0.Ids) ==> k.getConsumerIdsBasedOnTime(ctx, key, time).0.Ids[i] == l0.0.Ids[i]
+//@ ensures [error] result != nil ==> S == old(S)
+//@ ensures [frame] forall kk bytes :: kk != key(time) ==> S[kk] == old(S[kk])
+//@ ensures [no-deps] E == old(E) && X == old(X)
+
+//@ func Keeper.removeConsumerIdFromTime
+//@ let l0 := old(k.getConsumerIdsBasedOnTime(ctx, key, time))
+//@ let n0 := len(l0.0.Ids)
+//@ loop 1 invariant [range] 0 <= i && i <= len(consumers.Ids) && index == 0 - 1
+//@ loop 1 invariant [none] forall j int :: 0 <= j && j < i ==> consumers.Ids[j] != consumerId
+//@ loop 1 invariant [same] consumers == entry(consumers) && S == old(S) && E == old(E) && X == old(X)
+//@ ensures [absent] (forall j int :: 0 <= j && j < n0 ==> l0.0.Ids[j] != consumerId) ==> result != nil
+//@ ensures [error] result != nil ==> S == old(S)
+//@ ensures [first] result == nil ==> 0 <= index && index < n0 && l0.0.Ids[index] == consumerId && (forall j int :: 0 <= j && j < index ==> l0.0.Ids[j] != consumerId)
+//@ ensures [last] result == nil && n0 == 1 ==> !present(key(time))
+//@ ensures [len] result == nil && n0 > 1 ==> len(k.getConsumerIdsBasedOnTime(ctx, key, time).0.Ids) == n0 - 1
+//@ ensures [before] result == nil && n0 > 1 ==> forall j int :: 0 <= j && j < index ==> k.getConsumerIdsBasedOnTime(ctx, key, time).0.Ids[j] == l0.0.Ids[j]
+//@ ensures [after] result == nil && n0 > 1 ==> forall j int :: index <= j && j < n0 - 1 ==> k.getConsumerIdsBasedOnTime(ctx, key, time).0.Ids[j] == l0.0.Ids[j + 1]
+//@ ensures [frame] forall kk bytes :: kk != key(time) ==> S[kk] == old(S[kk])
+//@ ensures [no-deps] E == old(E) && X == old(X)
+
+// ---------------------------------------------------------------- validator-set storage (C01, C11, C13, C15)
+
+//@ func Keeper.deleteValSet
+//@ requires blen(prefix) >= 1
+//@ loop 1 invariant [collect] len(keysToDel) == iterator.pos && 0 <= iterator.pos && iterator.pos <= iterator.n && (forall j int :: 0 <= j && j < len(keysToDel) ==> keysToDel[j] == iterator.key(j))
+//@ loop 2 invariant [idx] 0 <= _i && _i <= len(keysToDel)
+//@ loop 2 invariant [deleted] forall j int :: 0 <= j && j < _i ==> S[keysToDel[j]] == bnil
+//@ loop 2 invariant [frame] forall key bytes :: !bpre(prefix, key) ==> S[key] == old(S[key])
+//@ loop 2 invariant [only-deletes] forall key bytes :: S[key] == old(S[key]) || S[key] == bnil
+//@ loop 2 invariant [deps] E == old(E) && X == old(X)
+//@ ensures [erased] forall key bytes :: bpre(prefix, key) ==> S[key] == bnil
+//@ ensures [frame] forall key bytes :: !bpre(prefix, key) ==> S[key] == old(S[key])
+//@ ensures [no-deps] E == old(E) && X == old(X)
+
 // ---------------------------------------------------------------- per-consumer list deleters (C11 erased, C13 isolation)
 
 //@ func Keeper.DeleteAllOptedIn
+//@ writes types.OptedInKeyPrefix()
 //@ let pfx := types.StringIdWithLenKey(types.OptedInKeyPrefix(), consumerId)
 //@ loop 1 invariant [collect] len(keysToDel) == iterator.pos && 0 <= iterator.pos && iterator.pos <= iterator.n && (forall j int :: 0 <= j && j < len(keysToDel) ==> keysToDel[j] == iterator.key(j))
 //@ loop 2 invariant [idx] 0 <= _i && _i <= len(keysToDel)
@@ -367,6 +409,7 @@ package keeper
 //@ ensures [no-deps] E == old(E) && X == old(X)
 
 //@ func Keeper.DeleteAllowlist
+//@ writes types.AllowlistKeyPrefix()
 //@ let pfx := types.StringIdWithLenKey(types.AllowlistKeyPrefix(), consumerId)
 //@ loop 1 invariant [collect] len(keysToDel) == iterator.pos && 0 <= iterator.pos && iterator.pos <= iterator.n && (forall j int :: 0 <= j && j < len(keysToDel) ==> keysToDel[j] == iterator.key(j))
 //@ loop 2 invariant [idx] 0 <= _i && _i <= len(keysToDel)
@@ -379,6 +422,7 @@ package keeper
 //@ ensures [no-deps] E == old(E) && X == old(X)
 
 //@ func Keeper.DeleteDenylist
+//@ writes types.DenylistKeyPrefix()
 //@ let pfx := types.StringIdWithLenKey(types.DenylistKeyPrefix(), consumerId)
 //@ loop 1 invariant [collect] len(keysToDel) == iterator.pos && 0 <= iterator.pos && iterator.pos <= iterator.n && (forall j int :: 0 <= j && j < len(keysToDel) ==> keysToDel[j] == iterator.key(j))
 //@ loop 2 invariant [idx] 0 <= _i && _i <= len(keysToDel)
@@ -391,6 +435,7 @@ package keeper
 //@ ensures [no-deps] E == old(E) && X == old(X)
 
 //@ func Keeper.DeletePrioritylist
+//@ writes types.PrioritylistKeyPrefix()
 //@ let pfx := types.StringIdWithLenKey(types.PrioritylistKeyPrefix(), consumerId)
 //@ loop 1 invariant [collect] len(keysToDel) == iterator.pos && 0 <= iterator.pos && iterator.pos <= iterator.n && (forall j int :: 0 <= j && j < len(keysToDel) ==> keysToDel[j] == iterator.key(j))
 //@ loop 2 invariant [idx] 0 <= _i && _i <= len(keysToDel)
@@ -573,7 +618,7 @@ package keeper
 //@ ensures [topn-gov] result1 == nil ==> k.Keeper.GetConsumerPowerShapingParameters(goCtx, c).1 == nil && (k.Keeper.GetConsumerPowerShapingParameters(goCtx, c).0.Top_N != 0 ==> k.Keeper.GetConsumerOwnerAddress(goCtx, c).0 == k.GetAuthority())
 //@ ensures [topn-pre] result1 == nil && msg.PowerShapingParameters != nil && msg.PowerShapingParameters.Top_N > 0 ==> owner0.0 == k.GetAuthority()
 //@ ensures [topn-min-power] result1 == nil && msg.PowerShapingParameters != nil ==> $UpdateMinimumPowerInTopN.called && $UpdateMinimumPowerInTopN.consumerId == c && $UpdateMinimumPowerInTopN.oldTopN == psp0.0.Top_N && $UpdateMinimumPowerInTopN.newTopN == msg.PowerShapingParameters.Top_N
-//@ ensures [infr-immediate] result1 == nil && msg.InfractionParameters != nil && pre0 ==> $SetInfractionParameters.called && $SetInfractionParameters.consumerId == c && !$UpdateQueuedInfractionParams.called && $SetInfractionParameters.parameters.DoubleSign == (msg.InfractionParameters.DoubleSign != nil ? msg.InfractionParameters.DoubleSign : infr0.0.DoubleSign) && $SetInfractionParameters.parameters.Downtime == (msg.InfractionParameters.Downtime != nil ? msg.InfractionParameters.Downtime : infr0.0.Downtime)
+//@ ensures [infr-immediate] (stretch) result1 == nil && msg.InfractionParameters != nil && pre0 ==> $SetInfractionParameters.called && $SetInfractionParameters.consumerId == c && !$UpdateQueuedInfractionParams.called && $SetInfractionParameters.parameters.DoubleSign == (msg.InfractionParameters.DoubleSign != nil ? msg.InfractionParameters.DoubleSign : infr0.0.DoubleSign) && $SetInfractionParameters.parameters.Downtime == (msg.InfractionParameters.Downtime != nil ? msg.InfractionParameters.Downtime : infr0.0.Downtime)
 //@ ensures [infr-queued] result1 == nil && msg.InfractionParameters != nil && !pre0 ==> $UpdateQueuedInfractionParams.called && $UpdateQueuedInfractionParams.consumerId == c && !$SetInfractionParameters.called && $UpdateQueuedInfractionParams.newInfractionParams.DoubleSign == (msg.InfractionParameters.DoubleSign != nil ? msg.InfractionParameters.DoubleSign : infr0.0.DoubleSign) && $UpdateQueuedInfractionParams.newInfractionParams.Downtime == (msg.InfractionParameters.Downtime != nil ? msg.InfractionParameters.Downtime : infr0.0.Downtime)
 //@ ensures [infr-untouched] result1 == nil && msg.InfractionParameters == nil ==> !$SetInfractionParameters.called && !$UpdateQueuedInfractionParams.called
 
@@ -582,3 +627,33 @@ package keeper
 //@ ensures [opt-in-only] result1 == nil ==> result0 != nil && k.Keeper.GetConsumerPowerShapingParameters(goCtx, result0.ConsumerId).1 == nil && k.Keeper.GetConsumerPowerShapingParameters(goCtx, result0.ConsumerId).0.Top_N == 0
 //@ ensures [owner] result1 == nil ==> k.Keeper.GetConsumerOwnerAddress(goCtx, result0.ConsumerId).1 == nil && k.Keeper.GetConsumerOwnerAddress(goCtx, result0.ConsumerId).0 == msg.Submitter
 //@ ensures [fresh-id] result1 == nil ==> result0.ConsumerId == strconv.FormatUint(old(k.Keeper.GetConsumerId(goCtx)).0, 10)
+
+// ---------------------------------------------------------------- C15: the provider's own consensus set
+
+//@ func Keeper.CreateProviderConsensusValidator
+//@ let ca := val.GetConsAddr()
+//@ let pk := val.CmtConsPublicKey()
+//@ let va := sdk.ValAddressFromBech32(val.GetOperator())
+//@ let pw := old(k.stakingKeeper.GetLastValidatorPower(ctx, va.0))
+//@ ensures [def] result1 == nil ==> ca.1 == nil && pk.1 == nil && va.1 == nil && pw.1 == nil && result0.ProviderConsAddr == ca.0 && result0.PublicKey != nil && val(result0.PublicKey) == pk.0 && result0.Power == pw.0
+//@ ensures [err] ca.1 != nil || pk.1 != nil || va.1 != nil || pw.1 != nil ==> result1 != nil
+//@ ensures [pure] S == old(S) && E == old(E) && X == old(X)
+
+//@ func Keeper.ProviderValidatorUpdates
+//@ let bonded := old(k.stakingKeeper.GetBondedValidatorsByPower(ctx))
+//@ let M := old(k.GetMaxProviderConsensusValidators(ctx))
+//@ requires [W-params] M >= 0
+//@ let n := min(M, len(bonded.0))
+//@ loop 1 invariant [idx] 0 <= _i && _i <= n
+//@ loop 1 invariant [built] len(nextValidators) == _i && (forall j int :: 0 <= j && j < _i ==> k.CreateProviderConsensusValidator(ctx, bonded.0[j]).1 == nil && nextValidators[j] == k.CreateProviderConsensusValidator(ctx, bonded.0[j]).0)
+//@ loop 1 invariant [pure] S == old(S) && E == old(E) && X == old(X)
+//@ ensures [bonded-err] bonded.1 != nil ==> result1 != nil
+//@ ensures [size] result1 == nil ==> $SetLastProviderConsensusValSet.called && len($SetLastProviderConsensusValSet.nextValidators) == n
+//@ ensures [top-m] result1 == nil ==> $SetLastProviderConsensusValSet.called && (forall j int :: 0 <= j && j < n ==> k.CreateProviderConsensusValidator(ctx, bonded.0[j]).1 == nil && $SetLastProviderConsensusValSet.nextValidators[j] == k.CreateProviderConsensusValidator(ctx, bonded.0[j]).0)
+//@ ensures [diff] result1 == nil ==> $DiffValidators.called && result0 == $DiffValidators.ret && $GetLastProviderConsensusValSet.called && $DiffValidators.currentValidators == $GetLastProviderConsensusValSet.ret0 && $DiffValidators.nextValidators == $SetLastProviderConsensusValSet.nextValidators
+//@ ensures [no-deps] E == old(E) && X == old(X)
+
+// ---------------------------------------------------------------- C16 / C13: reward allocation
+
+//@ func Keeper.AllocateTokens
+//@ loop 1 invariant [registered-denoms-fixed] allConsumerRewardDenoms == entry(allConsumerRewardDenoms)
